@@ -1005,7 +1005,11 @@ pub fn property() -> Property {
                pause/unpause/set identity(a)/set compliance answers/set recovery target/advance; amounts relative to balance, free balance, frozen amount and allowance; \
                explicit authorization entries, 1/10 of holder calls and 1/13 of operator calls mis-authorized); \
                non-trivial = a correctly authorized movement refused through each of >=3 different closed gates AND >=1 authorized transfer_from AND >=1 successful \
-               forced_transfer/burn/recovery on an account with a partial freeze; distinct = distinct serialised case. real-idv sub: token wired to the library's real identity verifier (registry with up to 3 required topics, 2 scriptable issuers, 3 identities holding generated claim sets), history of mint/transfer/transfer_from interleaved with claim, validity, topic and issuer edits; non-trivial = >=2 required topics, a movement blocked by the sender's and one by the receiver's verification, and a successful movement",
+               forced_transfer/burn/recovery on an account with a partial freeze; distinct = distinct serialised case. real-idv sub: token wired to the library's real identity verifier (registry with up to 3 required topics, 2 scriptable issuers, 3 identities holding generated claim sets), history of mint/transfer/transfer_from interleaved with claim, validity, topic and issuer edits; non-trivial = >=2 required topics, a movement blocked by the sender's and one by the receiver's verification, and a successful movement. \
+               real-idv recovery extension: 3 investors + 3 spare wallets; the history also holds recover_identity(old,new) on the library's identity registry storage (registers the recovery pair), \
+               recover_balance(old,new) on the token (old/new resolved against the model: registered target | another, preferably verified, account | no registered pair | raw; 1/7 mis-authorized; \
+               optional operator freeze of old/new right before), operator partial/address freezes and add_identity for spare wallets; non-trivial (alternative) = a recovery to the registered target that \
+               moved a positive balance AND a correctly authorized recovery refused for a wrong target, a missing pair or an unverified new account",
         subs: {
             let mut v = vec![gen_sub::<Case>("gates", 2000, 30000, strategy, run)];
             v.extend(super::c04b::subs());
@@ -1039,12 +1043,29 @@ pub fn property() -> Property {
             ("only:transfer_from:compliance", 15, 150),
             ("only:mint:identity-to", 15, 150),
             ("only:mint:compliance", 16, 160),
+            // real-idv sub (<= 1/10 of the minimum measured over seeds 0..3, quick; thorough runs 7.5x the cases with longer histories)
+            ("nontrivial_real_idv", 45, 225),
+            ("idv_move_ok", 210, 1050),
+            ("nontrivial_recovery", 130, 650),
+            ("rec_link_registered", 1800, 9000),
+            ("rec_ok_moved", 210, 1050),
+            ("rec_carries_partial_freeze", 70, 350),
+            ("rec_carries_address_freeze", 36, 180),
+            ("rec_onto_target_holding_a_freeze", 33, 165),
+            ("rec_chained", 16, 80),
+            ("rec_refused_only:wrong-target", 95, 475),
+            ("rec_refused_only:no-link", 280, 1400),
+            ("rec_refused_only:identity-new", 560, 2800),
+            ("rec_rejected_auth", 400, 2000),
+            ("rec_zero_balance_false", 137, 685),
+            ("rec_repeated_after_success", 115, 575),
         ],
         assumptions: vec![
             "Soroban native test host (auth-tree matching, rollback of failed invocations, TTL rules) is trusted",
             "the harness RWA token wires RWA::* / pausable::* one-to-one; `operator` = require_auth + equality with a stored admin stands for the RBAC check the docs ask for",
             "compliance and identity verifier are scripted mocks behind the exact client interfaces the token calls; allowance semantics are C02's subject (visible allowance is read, not modelled)",
             "mint is asserted to need a verified recipient and compliance approval only (statement); the pause / frozen-address errors the RWAToken trait docs list for mint and burn are counted, not asserted",
+            "real-idv recovery: the registered recovery target of an account is the pair last registered through a successful recover_identity; compliance notifications of a recovery and the address flag of the emptied old wallet are not documented by recover_balance and are counted, not asserted (the `gates` sub-check asserts the notification as the statement words it)",
         ],
     }
 }
